@@ -551,7 +551,9 @@ Section Run.
                     rec_add (ev (log_req s0 (RDelete i (c_uid c) (o_prop o)) false) (EPrune g i AOk)) i SDelete ASucceeded (c_uid c) 0%Z
                 | Some live =>
                     if N.eqb (c_uid live) (c_uid c) then
-                      let s1 := set_cl s0 (mkCl (del_obj (objs cl) i) (inv cl) (next_uid cl)) in
+                      (* an object held by a finalizer is only marked terminating: it stays, annotations and all *)
+                      let s1 := if u_fin (uinfo_of sc i) then s0
+                                else set_cl s0 (mkCl (del_obj (objs cl) i) (inv cl) (next_uid cl)) in
                       rec_add (ev (log_req s1 (RDelete i (c_uid c) (o_prop o)) true) (EPrune g i AOk)) i SDelete ASucceeded (c_uid c) 0%Z
                     else   (* precondition failed: conflict *)
                       rec_add (ev (log_req s0 (RDelete i (c_uid c) (o_prop o)) false) (EPrune g i AFail)) i SDelete AFailed 0%N 0%Z
